@@ -1,6 +1,6 @@
 SPECIFICATION GSpec
 CONSTANTS
-  Kinds <- Alphabet
+  Kinds <- Alphabet3
   MaxItems = 3
   Simulating = FALSE
 INVARIANTS TypeOK OnceInOrder PromptClause NotEarly EchoClause Emit
